@@ -388,6 +388,44 @@ def ref_composite_px(spec, x, y, color=1.0, alpha=0.0, root=None):
     return C, st.fg, st.ag, st.stable
 
 
+def node_at(spec, path):
+    lst, n = spec["layers"], None
+    for i in path:
+        n = lst[i]
+        lst = n.get("children", [])
+    return n
+
+
+def ref_layer_entry_px(spec, path, x, y, color=1.0, alpha=0.0):
+    """layer.composite() / composite(layer, as_layer=True): the single element (with its clipping layers, mask,
+    opacities and blend mode) composited into a compositor that is isolated unless the layer is a pass-through group"""
+    nch = NCH[spec["mode"]]
+    C0 = [Fr(c).limit_denominator(1 << 24) for c in (color if isinstance(color, (list, tuple)) else [color] * nch)]
+    a0 = Fr(alpha).limit_denominator(1 << 24)
+    lst = spec["layers"]
+    chain_visible = True
+    for d, i in enumerate(path):
+        n = lst[i]
+        if d < len(path) - 1:
+            chain_visible = chain_visible and _visible(n)
+            lst = n["children"]
+    i = path[-1]
+    clips = []
+    has_target = any(not m.get("clip") for m in lst[:i])
+    if not n.get("clip"):
+        j = i + 1
+        while j < len(lst) and lst[j].get("clip"):
+            clips.append(lst[j])
+            j += 1
+    st = RefState(C0, a0, n["bm"] != "pass_through")
+    if chain_visible and not (n.get("clip") and has_target):
+        _ref_element(st, n, clips, x, y, nch)
+    if st.ag == 0:
+        return None, st.fg, st.ag, st.stable
+    C = [c + (c - c0) * (st.a0 / st.ag - st.a0) for c, c0 in zip(st.C, st.C0)]
+    return C, st.fg, st.ag, st.stable
+
+
 def ref_composite(spec, viewport=None, color=1.0, alpha=0.0, root=None):
     vp = viewport or (0, 0, spec["size"][0], spec["size"][1])
     return {(x, y): ref_composite_px(spec, x, y, color, alpha, root)
